@@ -18,7 +18,8 @@ ID = 'C06'
 LEVEL = 'exploration'
 DECIDING = ['c06:results_compiled', 'c06:traces_compared']
 RULE = ('a case = one generated executable program (units partly wrapped into function bodies); '
-        'selections: every ast expression range (explicit until-position and cursor-only), '
+        'selections: every ast expression range (explicit until-position and cursor-only), every '
+        'operand run of a parenthesis-free operator expression that is not itself a sub-expression, '
         'off-by-one perturbations of both ends, statement ranges of 1-3 statements inside function '
         'bodies, every single-assignment variable; refactorings extract_variable, extract_function, '
         'inline. Every returned result must compile; selections flagged pure and once-evaluated '
@@ -57,6 +58,9 @@ def shape_tag(sel, kind, refac):
     """Shape tags of the listed extract_function findings (generator/ast facts, never guessed
     from jedi's output)."""
     f = sel['flags']
+    if f.get('operand_run') and refac in ('extract_variable', 'extract_function'):
+        # a run of operands that is not a sub-expression of Python's expression tree
+        return 'selection_is_an_operand_run_not_a_subexpression'
     if refac != 'extract_function':
         return None
     if f.get('contains_await'):
@@ -114,6 +118,8 @@ def run(spec):
     for e in exprs:
         requests.append(('extract_variable', 'range', e))
         requests.append(('extract_function', 'range', e))
+        if e['flags'].get('operand_run'):
+            continue
         if rnd.random() < 0.3:
             requests.append((rnd.choice(['extract_variable', 'extract_function']), 'cursor', e))
         if rnd.random() < 0.25:
@@ -192,6 +198,10 @@ def run(spec):
             continue
         claim = (kind in ('range', 'pos', 'range_in') and not tag and
                  (sel['flags'].get('pure') if refac != 'inline' else sel['flags'].get('equivalence_claimed')))
+        if sel['flags'].get('operand_run'):
+            # jedi documents that `2 + 3` can be extracted from `1 * 2 + 3`: the result is
+            # compared with the original program like any other pure selection (listed finding)
+            claim = bool(kind == 'range' and sel['flags'].get('pure'))
         if refac == 'extract_function' and sel.get('is_stmt'):
             # statement ranges: compile-or-refuse always; trace equality for blocks of plain
             # assignments with pure values, selected in the convention upstream's fixtures use
@@ -205,7 +215,7 @@ def run(spec):
                                                        trace1[0][-100:] + trace1[1]),
                             new_main=newf.get('main.py', '')[:3000], **w)
             # extract_variable followed by inline of the new variable
-            if refac == 'extract_variable':
+            if refac == 'extract_variable' and not tag:
                 ntext = newf['main.py']
                 pos = None
                 for li, ltxt in enumerate(ntext.split('\n'), 1):
